@@ -46,6 +46,7 @@ class ClassInfo:
     methods: dict = field(default_factory=dict)  # name -> FuncInfo
     enum_members: list = field(default_factory=list)  # (name, value expr)
     class_attrs: dict = field(default_factory=dict)  # name -> expr (non-field class level assigns)
+    nested: dict = field(default_factory=dict)  # name -> ClassInfo of a class defined in this class body
 
     @property
     def qname(self) -> str:
@@ -200,8 +201,9 @@ class World:
 
         scan(mi.tree.body)
 
-    def _scan_class(self, mi: ModuleInfo, node: ast.ClassDef):
-        ci = ClassInfo(mi.name, node.name, node, [])
+    def _scan_class(self, mi: ModuleInfo, node: ast.ClassDef, outer: str = ""):
+        cname = f"{outer}.{node.name}" if outer else node.name
+        ci = ClassInfo(mi.name, cname, node, [])
         for d in node.decorator_list:
             dn = _deco_name(d)
             if dn == "dataclass":
@@ -234,9 +236,9 @@ class World:
                     kind = "property"
                 elif any(dn == "setter" for dn in decos):
                     continue
-                ci.methods[st.name] = FuncInfo(mi.name, node.name, st.name, st, kind, _is_stub_body(st.body), _has_yield(st))
+                ci.methods[st.name] = FuncInfo(mi.name, cname, st.name, st, kind, _is_stub_body(st.body), _has_yield(st))
             elif isinstance(st, ast.AnnAssign) and isinstance(st.target, ast.Name):
-                fi = FieldInfo(st.target.id, st.annotation, None, None, owner=f"{mi.name}.{node.name}")
+                fi = FieldInfo(st.target.id, st.annotation, None, None, owner=f"{mi.name}.{cname}")
                 ann_src = ast.unparse(st.annotation)
                 if ann_src.startswith("ClassVar") or ann_src.startswith("typing.ClassVar") or ann_src.startswith("'ClassVar"):
                     fi.classvar = True
@@ -259,7 +261,11 @@ class World:
                 ci.fields.append(fi)
             elif isinstance(st, ast.Assign) and len(st.targets) == 1 and isinstance(st.targets[0], ast.Name):
                 ci.class_attrs[st.targets[0].id] = st.value
-        mi.classes[node.name] = ci
+            elif isinstance(st, ast.ClassDef):
+                # a class defined in the class body (Extension.NotFound, ExtensionRegistry.ExtensionNotFound, ...)
+                ci.nested[st.name] = self._scan_class(mi, st, cname)
+        mi.classes[cname] = ci
+        return ci
 
     # ------------------------------------------------------------------ resolution
     def resolve_name(self, modname: str, name: str, _depth=0):
@@ -378,6 +384,13 @@ class World:
         mod, _, nm = qname.rpartition(".")
         mi = self.modules.get(mod)
         if mi is None:
+            # a nested class: hugr.ext.Extension.TypeNotFound -> module hugr.ext, class "Extension.TypeNotFound"
+            while "." in mod:
+                mod, _, outer = mod.rpartition(".")
+                nm = f"{outer}.{nm}"
+                mi = self.modules.get(mod)
+                if mi is not None:
+                    return mi.classes.get(nm)
             return None
         return mi.classes.get(nm)
 
@@ -390,6 +403,11 @@ class World:
             if isinstance(bb, ast.Subscript):  # Generic[T], Protocol[S], BiMap[...]
                 bb = bb.value
             r = self.deref_const(self.resolve_expr(ci.module, bb))
+            if r is None and "." in ci.name and isinstance(bb, ast.Name):
+                # a base named inside the enclosing class body (class OperationNotFound(NotFound))
+                sib = self.modules[ci.module].classes.get(ci.name.rsplit(".", 1)[0] + "." + bb.id)
+                if sib is not None:
+                    r = ("class", sib)
             if r is None:
                 out.append("?" + ast.unparse(bb))
             elif r[0] == "class":
